@@ -3,6 +3,7 @@ package checkers
 import (
 	"go/ast"
 	"go/token"
+	"go/types"
 
 	"github.com/go-critic/go-critic/checkers/internal/astwalk"
 	"github.com/go-critic/go-critic/linter"
@@ -38,6 +39,13 @@ if err != nil {
 type nilValReturnChecker struct {
 	astwalk.WalkHandler
 	ctx *linter.CheckerContext
+
+	fn *ast.FuncDecl
+}
+
+func (c *nilValReturnChecker) EnterFunc(fn *ast.FuncDecl) bool {
+	c.fn = fn
+	return fn.Body != nil
 }
 
 func (c *nilValReturnChecker) VisitStmt(stmt ast.Stmt) {
@@ -59,12 +67,40 @@ func (c *nilValReturnChecker) VisitStmt(stmt ast.Stmt) {
 	if !xIsNil {
 		return
 	}
-	for _, res := range ret.Results {
+	for i, res := range ret.Results {
 		if astequal.Expr(expr.X, res) {
+			if c.becomesNonNilInterface(ret, i) {
+				// A nil pointer (map, func, ...) stored in an interface-typed
+				// result is not a nil interface value.
+				continue
+			}
 			c.warn(ret, expr.X)
 			break
 		}
 	}
+}
+
+// becomesNonNilInterface reports whether i-th result of ret is a value
+// of non-interface type that is returned as an interface.
+func (c *nilValReturnChecker) becomesNonNilInterface(ret *ast.ReturnStmt, i int) bool {
+	if c.fn == nil {
+		return false
+	}
+	sig, _ := c.ctx.TypeOf(c.fn.Name).(*types.Signature)
+	// The innermost function literal that contains ret, if any.
+	ast.Inspect(c.fn.Body, func(n ast.Node) bool {
+		if lit, ok := n.(*ast.FuncLit); ok && lit.Pos() <= ret.Pos() && ret.End() <= lit.End() {
+			if litSig, ok := c.ctx.TypeOf(lit).(*types.Signature); ok {
+				sig = litSig
+			}
+		}
+		return true
+	})
+	if sig == nil || sig.Results().Len() != len(ret.Results) {
+		return false
+	}
+	valType := c.ctx.TypeOf(ret.Results[i])
+	return types.IsInterface(sig.Results().At(i).Type()) && !types.IsInterface(valType)
 }
 
 func (c *nilValReturnChecker) warn(cause, val ast.Node) {
